@@ -30,7 +30,7 @@ def q(name):
 QUICK = [
     fam("ops1", q("ops1")), fam("nums", q("nums")), fam("data", q("data")), fam("select", q("select")),
     fam("call", q("call")), fam("foppre", q("foppre")), fam("misc", q("misc")), fam("cast", q("cast")), fam("castdot", q("castdot")),
-    fam("moddef", q("moddef")), fam("dotuse", q("dotuse")), fam("conlet", q("conlet")), fam("funcbody", q("funcbody")), fam("funcsel", q("funcsel")), fam("cmpdata", q("cmpdata")), fam("moduse", q("moduse")), fam("copyparam", q("copyparam")), fam("shadowuse", q("shadowuse")), fam("funcshadow", q("funcshadow")), fam("sim", q("sim"), (2500, 70)),
+    fam("moddef", q("moddef")), fam("dotuse", q("dotuse")), fam("conlet", q("conlet")), fam("funcbody", q("funcbody")), fam("funcsel", q("funcsel")), fam("cmpdata", q("cmpdata")), fam("moduse", q("moduse")), fam("copyparam", q("copyparam")), fam("shadowuse", q("shadowuse")), fam("shadowuse2", q("shadowuse2")), fam("funcshadow", q("funcshadow")), fam("sim", q("sim"), (2500, 70)),
 ]
 THOROUGH = QUICK[:-1] + [fam("sim", q("sim"), (60000, 80))]
 
@@ -56,6 +56,29 @@ def mentions(x, e, op=None):
         if x.get("e") == e and (op is None or x.get("op") == op):
             return True
         return any(mentions(v, e, op) for v in x.values() if isinstance(v, (dict, list)))
+    return False
+
+
+def returns_parameter_in_a_container(prog):
+    """some function's body is a list or tuple literal that mentions one of its parameters, and a top-level binding
+    has that parameter's name"""
+    tops = {"".join(s["nm"]) for s in prog if s.get("s") == "let"}
+    for s in prog:
+        x = s.get("x") or {}
+        if x.get("e") == "func" and x["body"].get("e") in ("list", "tuple"):
+            ps = {"".join(p) for p in x["ps"]}
+            if ps & tops and any(mentions_sym(x["body"], p) for p in ps & tops):
+                return True
+    return False
+
+
+def mentions_sym(x, name):
+    if isinstance(x, list):
+        return any(mentions_sym(y, name) for y in x)
+    if isinstance(x, dict):
+        if x.get("e") == "sym" and "".join(x["nm"]) == name:
+            return True
+        return any(mentions_sym(v, name) for v in x.values() if isinstance(v, (dict, list)))
     return False
 
 
@@ -167,6 +190,8 @@ def work(h, cases):
                 key = "checker:parameter-pinned-to-its-first-selected-field"
             if key == "checker:No candidate type has field '_'" and copies_a_parameter(c["prog"]):
                 key = "checker:field-added-by-a-copy-of-an-untyped-parameter"      # a repaired defect (fixed finding)
+            if key.startswith("checker:Expected") and returns_parameter_in_a_container(c["prog"]):
+                key = "checker:parameter-returned-inside-a-container-leaks-into-the-caller"
             if key == "checker:Incompatible List Shapes" and not mentions(c["prog"], "bin", "add"):
                 key += " (no + in the program)"     # the recorded finding is about list concatenation
             out.append({"status": "violation", "key": key, "text": text, "kind": "rejected",
